@@ -36,7 +36,9 @@ def pool():
             vint(big + 1), vint(2 ** 63), vdec(float(2 ** 63)), vint(2 ** 64), vint(-1), vdec(-1.0),
             vstr("a"), vstr("1"), vstr(""), V.TRUE, V.FALSE, V.NULL, vlist([vint(1)]),
             vlist([vdec(1.0)]), V.ValuePattern("a"), V.ValueDate(DATES[0]), V.ValueDate(DATES[2]), V.ValueDate(DATES[3]), vint(3), vint(11), vstr("11"),
-            vset([vint(1)]), vset([vdec(1.0)]), vmap([(vint(1), vint(2))]), vmap([(vdec(1.0), vdec(2.0))])]
+            vset([vint(1)]), vset([vdec(1.0)]), vmap([(vint(1), vint(2))]), vmap([(vdec(1.0), vdec(2.0))]),
+            # maps of the same size with different key sets and NULL values
+            vmap([(vstr("a"), V.NULL)]), vmap([(vstr("b"), V.NULL)]), vmap([(vstr("b"), vint(1))])]
 
 
 def bounds(tier):
